@@ -393,6 +393,22 @@ Proof.
   intros H; inversion H; subst. exists m0, a. rewrite S. cbn. repeat split; auto.
 Qed.
 
+(* ... and exactly then: the five conditions are also sufficient (C03 for hash envelopes: what is accepted is decided by
+   the decoder, the rules, the signature check over the received bytes and the digest length, and by nothing else) *)
+Theorem verify_he_iff vf env :
+  (exists m calls, verify_he vf env = (Acc m, calls)) <->
+  (exists m0 a,
+    unmarshal_sign1 env = Acc m0 /\ validate_he_headers (s1_h m0) = true /\
+    fst (sign1_verify m0 None vf) = Acc tt /\
+    payload_hash_alg_of (hP (s1_h m0)) = Acc a /\ validate_hash a (s1_payload m0) = true).
+Proof.
+  split.
+  - intros (m & calls & H). destruct (verify_he_accepts vf env m calls H) as (m0 & a & U & V & S & P & Hh & _).
+    exists m0, a. auto.
+  - intros (m0 & a & U & V & S & P & Hh). unfold verify_he. rewrite U, V. cbn [negb].
+    destruct (sign1_verify m0 None vf) as [r c]. cbn [fst] in S. subst r. rewrite P, Hh. eauto.
+Qed.
+
 (* SignHashEnvelope returns bytes only for a valid digest and headers that obey the rules; the
    bytes are the encoding of a COSE_Sign1 over exactly those headers with the hash value as payload *)
 Theorem sign_he_produces sg h p b calls :
@@ -412,6 +428,19 @@ Proof.
   destruct C as [(Hok & h2 & t & s & pl & _ & _ & _ & _ & _ & Post & _)|(Hbad & _ & Hp)].
   - rewrite Hok. intros H; inversion H; subst. repeat split; auto. rewrite Post. reflexivity.
   - destruct (out_res o) as [[]| | |]; try contradiction; discriminate.
+Qed.
+
+(* ... and exactly then (C12 "only conforming envelopes are produced", both directions) *)
+Theorem sign_he_iff sg h p :
+  let h' := mkH None (Some (set_he_protected (hP h) p)) (rawU h) (hU h) in
+  let o := sign1_sign (mkS1 h' (he_value p) None) None sg in
+  (exists b calls, sign_he sg h p = (Acc b, calls)) <->
+  (validate_hash (he_alg p) (he_value p) = true /\ validate_he_headers h' = true /\
+   out_res o = Acc tt /\ exists b, marshal_sign1 (out_post o) = Acc b).
+Proof.
+  cbv zeta. split.
+  - intros (b & calls & H). destruct (sign_he_produces sg h p b calls H) as (A & B & C & D & _). eauto 6.
+  - intros (A & B & C & b & D). unfold sign_he. rewrite A, B. cbn [negb]. unfold helper_sign1. rewrite C, D. eauto.
 Qed.
 
 (* the payload hash algorithm the caller asked for is what the signed protected map carries *)
